@@ -90,6 +90,9 @@ def _arrays(tier, seed):
     out.append(("chords_and_overlaps", [(60, 0, 2), (64, 0, 2), (67, 0, 2), (72, 1, 3), (59, 2, 1), (62, 2, 1), (65, 2.5, 0.5), (60, 3, 0)]))
     out.append(("chromatic_sharps_context", [(68, 0, 1), (72, 1, 1), (75, 2, 1), (70, 3, 1), (73, 4, 1), (77, 5, 1), (69, 6, 1), (70, 7, 1), (68, 8, 1)]))
     out.append(("single_note", [(21, 0, 1)]))
+    for pc in range(12):  # a single note of every pitch class (the smallest input: its only context is itself), and two-note inputs
+        out.append(("single_note_pitch_class_%d" % pc, [(24 + 12 * (pc % 5) + pc, 0, 1)]))
+    out.append(("two_notes_a_tritone_apart", [(66, 0, 1), (60, 1, 1)]))
     out.append(("extremes", [(21, 0, 1), (108, 0, 1), (22, 1, 0.5), (107, 1.5, 2)]))
     out.append(("top_of_the_keyboard", [(108, 0, 4), (103, 4, 1), (100, 5, 1), (108, 6, 2), (105, 8, 1), (108, 9, 4), (107, 13, 1), (108, 14, 4), (103, 18, 2)]))
     out.append(("above_the_keyboard", [(120, 0, 2), (124, 2, 1), (127, 3, 2), (120, 5, 3), (122, 8, 1), (127, 9, 2), (125, 11, 1), (120, 12, 4)]))
